@@ -1,6 +1,6 @@
 (* C02 — decoding is total: arbitrary bytes give a value or an error, never a panic.
    Statements only. *)
-From Zvt Require Import Base Length Cp437 Encoding EncodingProps Codec Lookup CodecTotal CodecSize GenCheck.
+From Zvt Require Import Base Length Cp437 Encoding EncodingProps Codec Lookup CodecTotal CodecSize GenCheck DateTimeProps Legacy.
 From Zvt.gen Require Import Layouts Tables.
 Open Scope N_scope.
 
@@ -53,6 +53,23 @@ Theorem C02_shipped_parsers_allocation : forall name vs fuel bs i v, In (name, v
   parse_enum fuel vs bs = Ok (i, v) -> wsize v <= 12 * blen bs.
 Proof. exact shipped_parsers_sized. Qed.
 
+(* no silently wrapped number in a date-time either (after the fix of F8): whenever the date-time decoder answers, for ANY bytes,
+   the answer is what the digits spell — date number = year * 10000 + month * 100 + day with the year inside the calendar,
+   time number = hour * 10000 + minute * 100 + second *)
+Theorem C02_datetime_is_what_the_digits_spell : forall bs y mo d h mi s r, datetime_dec bs = Ok (VDate y mo d h mi s, r) ->
+  exists date time, dt_loop (S (length bs)) bs None None = Ok (Some date, Some time, r) /\
+    Z.of_N date = (y * 10000 + Z.of_N mo * 100 + Z.of_N d)%Z /\ time = h * 10000 + mi * 100 + s /\
+    (0 <= y <= MAX_YEAR)%Z /\ 1 <= mo <= 12 /\ 1 <= d <= 31 /\ h < 24 /\ mi < 60 /\ s < 60.
+Proof. exact datetime_dec_faithful. Qed.
+
+(* the finding itself: the old split read 4315197701 (2^32 + 20230405) as 5 April 2023 and 2621430101 as a negative year;
+   the decoder now refuses the first and reads the second as the year 262143 its digits spell *)
+Theorem C02_F8_refuted_then_repaired :
+  (legacy_date_split 4315197701 = (2023%Z, 4, 5) /\ legacy_date_split 2621430101 = ((-167353)%Z, 1, 1)) /\
+  (datetime_dec [31; 14; 5; 67; 21; 25; 119; 1; 31; 15; 3; 18; 52; 86] = Err IncompleteData /\
+   datetime_dec [31; 14; 5; 38; 33; 67; 1; 1; 31; 15; 3; 18; 52; 86] = Ok (VDate 262143 1 1 12 34 56, [])).
+Proof. exact F8_both. Qed.
+
 Example C02_ex_wsize : wsize (VRec [VStr [65; 66]; VList [VInt 1; VInt 2; VInt 3]; VSome (VBytes [0; 0]); VNone]) = 7.
 Proof. reflexivity. Qed.
 
@@ -73,3 +90,5 @@ Print Assumptions C02_tables_recognised.
 Print Assumptions C02_allocation_bounded_any_layout.
 Print Assumptions C02_shipped_packets_allocation.
 Print Assumptions C02_shipped_parsers_allocation.
+Print Assumptions C02_datetime_is_what_the_digits_spell.
+Print Assumptions C02_F8_refuted_then_repaired.
